@@ -13,7 +13,8 @@ META = {
     'text': 'Kernel-checked: C05_delivered_at_most_once (no (set, capture ticket) is rethrown twice; all interleavings), C05_throw_preserves_accounting (the counter equation with throwing '
             'bodies; zero at quiescence), and -- for interleavings with at most one thread inside the critical section of testAndResetException per set -- C05_first_exception_wins (unique CAS '
             'winner, the slot holds its exception) and C05_next_wait_rethrows (a zero counter implies the guard is not Setting, so a capture is complete; a load of Set leads to move, reset, rethrow). '
-            'On the implementation\'s log: no (exception, set) rethrown twice; every guard load that follows a completed capture goes on to rethrow. '
+            'On the implementation\'s log: no (exception, set) rethrown twice; every guard load that follows a completed capture goes on to rethrow; no wait() / tryWait(k), k = 0 included, returns normally / true '
+            'after observing completion while a completed capture of the set is still pending (probe family: throw, finish everything, poll with tryWait(0) / tryWait(1) / tryWait(large) / wait() in every order). '
             'Observation outside the property: two concurrent wait() calls on one ConcurrentTaskSet race on exception_ (real code: rethrow of a null exception_ptr, SIGSEGV).',
     'note': T.NOTE,
 }
@@ -26,9 +27,12 @@ def run(ctx):
     exe = T.prove_and_build(ctx, 'C05')
 
     def on_verdict(v, c, p, o):
-        ctx.violation('an (exception, set) pair was rethrown twice, or a wait whose guard load followed a completed capture did not rethrow: %s -> %s' % (T.case_line(c)[:300], o[:400]),
+        ctx.violation('an (exception, set) pair was rethrown twice, or a wait()/tryWait(k) returned normally / true having observed completion while a captured exception of the set was still pending (not rethrown by the call that had to deliver it): %s -> %s' % (T.case_line(c)[:300], o[:400]),
                       {'case': T.case_line(c), 'output': o, 'cmd': 'echo "<case>" | build/harness/h_taskset-*'})
-    res = T.lockstep_phase(ctx, exe, 'judge_C05', ['exc', 'exc', 'exc', 'mixed'], 110 if ctx.quick else 3000, on_verdict=on_verdict)
+    # deterministic probe family first: tasks throw, everything finishes, then tryWait(0) / tryWait(1) / tryWait(large) / wait() in each order, TaskSet and both ConcurrentTaskSet kinds
+    probes = T.exc_probes()
+    ctx.cov['probe_cases'] = len(probes)
+    res = T.lockstep_phase(ctx, exe, 'judge_C05', ['exc', 'exc', 'exc', 'mixed'], 80 if ctx.quick else 3000, witnesses=probes, on_verdict=on_verdict)
     ctx.cov['side_observations'] = [SIDE_OBSERVATION]
     ctx.cov['rethrows_observed'] = sum(1 for _, p, _, _ in res for evs in p['results'].values() for e in evs if e[0] == T.TAGS['rt'])
     ctx.cov['captures_observed'] = sum(1 for _, p, _, _ in res for (t, code) in p['steps'] if code // 64 == 15)
